@@ -13,6 +13,7 @@
 -/
 import EmitModel.Base.Sexp
 import EmitModel.Model.FilePipe
+import EmitModel.Model.OtlpE2E
 
 namespace EmitModel.Driver.FilePipe
 open EmitModel EmitModel.FilePipe
@@ -129,6 +130,21 @@ def runC07p (line : String) : String :=
     | _, _, _, _ => "bad-op"
   | _ => "bad-op"
 
-def streams : List (String × (String → String)) := [("c07_pipe", runC07p)]
+/-- stream `c09_file` : (c09f N) — N events emitted to a real `FileSet` while its worker is parked holding a batch of
+    one event. → `len=L trunc=T kept=K newest=true`: queue length and truncation count as C09 fixes them for the plain
+    `send` (`OtlpE2E.sendN` with the file emitter's capacity 10 000; C09 `sendCount_refines_send`, `sendN_bound`), the
+    records on disk after the flush (the held event + what the queue still held), the newest event among them. -/
+def runC09f (line : String) : String :=
+  match Sexp.parse line with
+  | some (.list [.atom "c09f", n]) =>
+    match n.nat? with
+    | some n =>
+      if n > 45000 then "bad-op" else
+      let r := OtlpE2E.sendN 10000 n (0, 0)
+      s!"len={r.1} trunc={r.2} kept={1 + r.1} newest=true\ttrunc={min r.2 3},len={if r.1 == 0 then "0" else if r.1 == 10000 then "cap" else "mid"}"
+    | none => "bad-op"
+  | _ => "bad-op"
+
+def streams : List (String × (String → String)) := [("c07_pipe", runC07p), ("c09_file", runC09f)]
 
 end EmitModel.Driver.FilePipe
